@@ -177,15 +177,15 @@ def _gen_bad(rng, meta):
 
 def _gen_edit(rng, meta):
     if meta["kind"] == "ds":
-        kinds = ["efth_scale", "efth_scale", "efth_replace", "dir_assign", "freq_assign", "attrs_set", "values_poke", "add_var"]
+        kinds = ["efth_scale", "efth_scale", "efth_replace", "dir_assign", "freq_assign", "attrs_set", "values_poke", "add_var", "values_nudge", "values_item"]
     else:
-        kinds = ["dir_assign", "dir_assign", "freq_assign", "values_poke", "attrs_set"]
+        kinds = ["dir_assign", "dir_assign", "freq_assign", "values_poke", "attrs_set", "values_nudge", "values_item"]
     if meta["kind"] == "ds" and any(k == "site" for k, _ in meta["recipe"]["dims"]):
         kinds += ["lonlat_assign", "lonlat_assign"]
     if meta["recipe"].get("nd", 0) == 0:
         kinds = [k for k in kinds if k != "dir_assign"]
     if meta["backing"] == "dask":
-        kinds = [k for k in kinds if k != "values_poke"]
+        kinds = [k for k in kinds if k not in ("values_poke", "values_nudge", "values_item")]
     k = rng.choice(kinds)
     e = {"k": k}
     if k == "efth_scale":
@@ -198,6 +198,13 @@ def _gen_edit(rng, meta):
         e["f"] = rng.choice([1.1, 0.9, 2.0])
     elif k == "values_poke":
         e["f"] = rng.choice([3.0, 0.5])
+    elif k == "values_nudge":
+        # a few bins move by much less than any discretisation step (a re-calibration, a unit round-off)
+        e["rel"] = rng.choice([1e-3, 1e-4, 1e-6])
+        e["seed"] = rng.randrange(1000)
+        e["share"] = rng.choice([0.05, 0.2, 0.5])
+    elif k == "values_item":
+        e["how"] = rng.choice(["scale", "scale", "zero"])
     elif k == "add_var":
         e["name"] = rng.choice(["crsd", "hs", "tm01", "crsd"])
     elif k == "lonlat_assign":
@@ -250,7 +257,7 @@ def gen_plan(rng, tier="quick", prop="C18"):
         weights = {"call": 7, "bad": 1, "edit": 3.5, "native": 1.5, "new": 1.2, "reader": 1.0, "writer": 0.3, "readfile": 0.3, "construct": 0.6, "reconstruct": 0.25, "readsample": 1.2,
                    "churn": 0.09}
     else:
-        weights = {"call": 6, "bad": 1.5, "edit": 0.8, "native": 0.3, "new": 1.0, "reader": 2.0, "writer": 3.0, "readfile": 0.8, "construct": 1.0, "reconstruct": 0.3, "readsample": 0.3}
+        weights = {"call": 6, "bad": 1.5, "edit": 0.8, "native": 0.3, "new": 1.0, "reader": 2.0, "writer": 3.0, "readfile": 0.8, "construct": 1.0, "reconstruct": 0.3, "readsample": 0.6}
     for _ in range(length):
         kind = rng.choices(list(weights), list(weights.values()))[0]
         wsl = [s for s, m in metas.items() if m["kind"] in ("ds", "da")]
@@ -368,12 +375,19 @@ def gen_plan(rng, tier="quick", prop="C18"):
                 st["fault"] = {"kind": rng.choice(["eio", "eio", "enospc", "torn", "close_err", "short"]), "k": rng.choice([1, 1, 2, 3, 5, 8, 13, 21, 34, 55, 89])}
             steps.append(st)
             files[fname] = fmt
+            if prop == "C18" and metas[slot]["backing"] != "dask" and fmt not in ("orcaflex", "funwave") and rng.random() < 0.5:
+                # the caller keeps working with the dataset: in-place edit, then the same export again
+                steps.append({"op": "edit", "slot": slot, "edit": dict({"k": rng.choice(["values_poke", "values_item", "values_nudge"]), "f": 0.5, "how": "scale", "rel": 1e-3, "seed": 1, "share": 0.5})})
+                steps.append(dict(st, file=("again_" + fname) if rng.random() < 0.6 else fname))
+                files[steps[-1]["file"]] = fmt
         elif kind == "readsample":
             if rng.random() < 0.45:
                 steps.append({"op": "readsample", "gen": "triaxys", "nf": rng.choice([28, 40, 56, 57, 58, 63, 111]), "df": 0.01,
                               "ddir": rng.choice([30.0, 45.0, 90.0]), "seed": rng.randrange(50), "directional": rng.random() < 0.7})
             else:
                 reader, fname, kw = rng.choice(SAMPLES)
+                if rng.random() < (0.5 if prop == "C17" else 0.1):
+                    reader, fname, kw = rng.choice([x for x in SAMPLES if isinstance(x[1], list)])     # file names in a list the caller owns
                 steps.append({"op": "readsample", "reader": reader, "file": fname, "kw": kw, "rel": rng.random() < 0.3})
                 if rng.random() < 0.25:
                     # the same file again (later calls in the same process must answer the same)
@@ -830,6 +844,19 @@ def apply_edit(slot, e):
     elif k == "values_poke":
         target = obj["efth"] if slot.kind == "ds" else obj
         target.values[...] = target.values * np.asarray(e["f"], dtype=target.dtype)
+    elif k == "values_nudge":
+        target = obj["efth"] if slot.kind == "ds" else obj
+        rng = np.random.default_rng(e["seed"])
+        v = target.values
+        mask = rng.random(v.shape) < e["share"]
+        sign = np.where(rng.random(v.shape) < 0.5, -1.0, 1.0)
+        v[mask] = (v * (1.0 + e["rel"] * sign)).astype(v.dtype)[mask]
+    elif k == "values_item":
+        # xarray item assignment on the first element of the leading dimension: the arrays change, no variable is replaced
+        target = obj["efth"] if slot.kind == "ds" else obj
+        lead = [d for d in target.dims if d not in ("freq", "dir")]
+        idx = {lead[0]: 0} if lead else {"freq": 0}
+        target[idx] = 0.0 if e["how"] == "zero" else target[idx] * np.asarray(0.5, dtype=target.dtype)
     else:
         raise AssertionError(k)
 
@@ -912,6 +939,9 @@ SAMPLES = [
     ("obscape_dir", "obscape", {"start": "1985-01-01", "end": "1995-01-01", "stray": "notes.csv"}), ("obscape_dir", "obscape", {}),
     ("read_obscape", "obscape/19900102_123456_Obscape2d_fine.csv", {}),
     ("read_ndbc_ascii", "ndbc/41010w2019part.txt.gz", {}),
+    # several files handed over as the caller's own list (not in name order)
+    ("read_spotter", ["spotter_20210929b.csv", "spotter_20210929.csv"], {}), ("read_datawell", ["datawell/buoy}2024-09-09T01h44Z.spt", "datawell/buoy}2024-09-09T01h15Z.spt"], {}),
+    ("read_ww3", ["ww3file.nc"], {}), ("read_spotter", ["spotter_20210929b.csv", "spotter_20210929.csv"], {}),
 ]
 
 
@@ -939,8 +969,14 @@ def write_triaxys(path, nf, df, ddir, seed, directional=True):
 CWD0 = os.getcwd()
 
 
-def read_sample(repo, st, fs_root):
+def read_sample(repo, st, fs_root, paths=None):
     import wavespectra as ws
+
+    if isinstance(st.get("file"), list):
+        if paths is None:
+            paths = [os.path.join(repo, "tests", "sample_files", f) for f in st["file"]]
+        out = getattr(ws, st["reader"])(paths, **st.get("kw", {}))
+        return out.load() if hasattr(out, "load") else out
 
     if st.get("gen") == "triaxys":
         path = os.path.join(fs_root, f"gen{st['nf']}_{int(st['ddir'])}_{st['seed']}.{'DIRSPEC' if st['directional'] else 'NONDIRSPEC'}")
@@ -989,6 +1025,9 @@ def ref_handler(req):
     import warnings
 
     warnings.simplefilter("ignore")
+    import logging
+
+    logging.disable(logging.INFO)
     from simkit.clock import pin_clock
 
     pin_clock()
@@ -1020,6 +1059,16 @@ def ref_handler(req):
             res = call_reader(F.thaw(req["obj"]), req["fmt"], req["fn"])
         elif kind == "readfile":
             res = do_read(req["fmt"], req["path"])
+        elif kind == "writer":
+            wobj = F.thaw(req["obj"])
+            if req.get("drop_lonlat"):
+                wobj = wobj.drop_vars([v for v in ("lon", "lat") if v in wobj.variables])
+            os.makedirs(req["root"], exist_ok=True)
+            rpath = os.path.join(req["root"], req["file"])
+            if os.path.exists(rpath):
+                os.remove(rpath)
+            do_write(wobj, req["fmt"], rpath, dict(req["kw"], **req["wargs"]))
+            res = do_read(req["fmt"], rpath)
         elif kind == "readsample":
             res = read_sample(req["repo"], req["st"], req["fs_root"])
         else:
@@ -1212,6 +1261,9 @@ def execute(arg):
                 store.objs[f"dsetlons{sid}"] = np.array(slots[sid].obj["lon"].values)
                 store.objs[f"dsetlats{sid}"] = np.array(slots[sid].obj["lat"].values)
                 args = dict(args, dset_lons=store.objs[f"dsetlons{sid}"], dset_lats=store.objs[f"dsetlats{sid}"])
+            spaths = None
+            if op == "readsample" and isinstance(st.get("file"), list):
+                spaths = store.get("list", [os.path.join(repo, "tests", "sample_files", f) for f in st["file"]])    # the caller's own list of file names
             wargs = {}
             if op == "writer" and st.get("lonlat_args"):
                 wargs = {"lons": store.get("array", st["lonlat_args"][0]), "lats": store.get("array", st["lonlat_args"][1])}
@@ -1343,8 +1395,10 @@ def execute(arg):
                     res_c = cmp.canon(run_bad(sl.obj, sl.aux, st["bad"], extra=store.objs.setdefault(f"badargs{sid}", {})))
                 elif op == "readsample":
                     req = {"kind": "readsample", "st": st, "repo": repo, "fs_root": os.path.join(root, "gen")}
-                    res_c = cmp.canon(read_sample(repo, st, os.path.join(root, "gen")))
+                    res_c = cmp.canon(read_sample(repo, st, os.path.join(root, "gen"), paths=spaths))
                     sim.count("sample_reads")
+                    if spaths is not None:
+                        sim.count("sample_reads_filelist")
                 elif op == "construct":
                     req = {"kind": "construct", "st": st}
                     res_c = cmp.canon(run_construct(st, fk, dk))
@@ -1390,6 +1444,13 @@ def execute(arg):
                         fs.disarm()
                     if fired:
                         sim.count("writes_survived_fault")
+                    if prop == "C18" and not fired and st["fmt"] != "orcaflex" and not st.get("kw", {}).get("append"):
+                        # the file is the writer's result: what its reader returns for it must be what it returns for the file a
+                        # pristine process writes from a fresh object with the same contents
+                        req = {"kind": "writer", "fmt": st["fmt"], "kw": dict(st.get("kw", {})), "file": st["file"], "root": os.path.join(root, "ref"),
+                               "drop_lonlat": bool(st.get("drop_lonlat")), "wargs": {k_: (np.array(v_) if isinstance(v_, np.ndarray) else copy.deepcopy(v_)) for k_, v_ in wargs.items()}}
+                        res_c = cmp.canon(do_read(st["fmt"], path))
+                        sim.count("writes_observed")
                 elif op == "readfile":
                     if acked.get(st["file"]) != st["fmt"]:
                         continue
@@ -1412,7 +1473,7 @@ def execute(arg):
                 check_purity(before, i, st, situation)
             # ---- C18 ---------------------------------------------------------------------
             if prop == "C18" and req is not None:
-                if op in ("call", "bad", "reader", "reconstruct"):
+                if op in ("call", "bad", "reader", "reconstruct", "writer"):
                     req["obj"] = F.freeze(sl.obj)
                     req["aux"] = F.freeze(sl.aux) if sl.aux is not None else None
                     if op == "call" and st["call"]["m"] == "interp_like":
